@@ -68,3 +68,17 @@ Theorem C03_multiframe_nonincreasing_jobs_respect_cost_model : forall (l : list 
   blocks_bounded (Multiframe l) js.
 Proof. exact multiframe_jobs_blocks_bounded. Qed.
 Definition C03_multiframe_nonincreasing_nonvacuous := multiframe_bridge_example.
+(* end to end for Multiframe task sets, no hypothesis about cost models left: every task carries a non-increasing frame vector and its
+   jobs, in some release order, cycle through the frames from some starting frame (each costing between 1 and its frame) *)
+Theorem C03_fifo_rta_sound_multiframe : forall dbg (tasks : list gtask) limit R jobs sched,
+  Forall gtask_ok tasks ->
+  e_fifo dbg (Agg (map grb_of tasks)) limit = ROk R ->
+  valid jobs sched -> work_conserving jobs sched -> fifo_policy jobs sched ->
+  respects_gcurves tasks jobs ->
+  (forall j, In j jobs -> (j_task j < length tasks)%nat /\ (1 <= j_cost j)%nat) ->
+  (forall i, (i < length tasks)%nat ->
+     exists js l s, Permutation.Permutation js (jobs_of jobs i) /\ release_sorted js /\
+       snd (nth i tasks gdflt) = Multiframe l /\ l <> [] /\ nonincreasing l /\
+       forall p, (p < length js)%nat -> N.of_nat (j_cost (nth p js jd)) <= frame_at l (s + N.of_nat p)) ->
+  forall k, (k < length jobs)%nat -> completes_within jobs sched k (N.to_nat R).
+Proof. exact fifo_rta_sound_multiframe. Qed.
